@@ -78,6 +78,15 @@ def kindName : Node → String
 
 end Node
 
+/-- the value of an integer literal whose node the checker annotated with a numeric kind
+    (`IntegerNode` in compiler.go: `int8(node.Value)`, `float64(node.Value)` …; plain `int` otherwise) -/
+def intConst (kd : RKind) (v : Int) : Val :=
+  match kd with
+  | .num .float32 => .f32 (Float32.ofInt v)
+  | .num .float64 => .f64 (Float.ofInt v)
+  | .num k => .int k (wrap k v)
+  | _ => .int .int v
+
 /-! ### S-expression encoding (driver only) -/
 
 def RKind.toAtom : RKind → String
